@@ -4,11 +4,13 @@
    gates of the real master. *)
 EXTENDS ZnPrefork
 VARIABLE hist
-hvars == <<live, childs, refCount, loops, pipe, waits, armed, wst, nextPid, reqs, faults, hist>>
+hvars == <<live, childs, refCount, loops, pipe, waits, armed, wst, nextPid, reqs, faults, got, hist>>
 HInit == Init /\ hist = <<>>
 H(a, p) == hist' = Append(hist, [a |-> a, p |-> p])
 HNext == \/ \E s \in 1..Len(loops) : SpawnStart(s) /\ H("spawn", nextPid)
-         \/ \E s \in 1..Len(loops) : MasterAdd(s) /\ H("add", loops[s].pending)
+         \* schedules are replayed through gates that hold the SEND of a registration until the step "add": receive and
+         \* processing happen together there, so the histories use the composed action
+         \/ \E s \in 1..Len(loops) : RecvThenAdd(s) /\ H("add", loops[s].pending)
          \/ MasterUpdate /\ H("update", Head(pipe).pid)
          \/ \E p \in Pids : MasterDel(p) /\ H("del", p)
          \/ \E p \in Pids : WorkerAccept(p) /\ H(IF wst'[p] = "hung" THEN "accept-hang" ELSE "accept", p)
@@ -21,5 +23,5 @@ BoundH == Bound \/ PrintT(ToJson([k |-> "cex", h |-> hist])) = FALSE
 \* simulation: print complete behaviours of the intended design
 Quiesced == reqs = NReq /\ pipe = <<>> /\ waits = {} /\ \A s \in 1..Len(loops) : loops[s].left = 0 /\ loops[s].pending = 0
 EmitSched == Quiesced => PrintT(ToJson([k |-> "sched", h |-> hist]))
-View == <<live, childs, refCount, loops, pipe, waits, armed, wst, nextPid, reqs, faults>>
+View == <<live, childs, refCount, loops, pipe, waits, armed, wst, nextPid, reqs, faults, got>>
 =============================================================================
